@@ -7,7 +7,9 @@
    post   = idx.flag,... applied after the range was built, or "-"
    hdrs   = hex,hex,... header lines or "-";  body = hex or "-"
    parts  = w | k<n> | c<cut>.<cut>... | all1 | all2
-   opts   = "-" or comma list of: trunc<n>, clr, auto *)
+   opts   = "-" or comma list of: trunc<n>, clr, auto
+   Session form (several transfers on one zckDL, reset + new missing range before each):
+     S <ht> <doff> <chunks> <t>/<t>/... <opts>     t = <hdrs>:<body>:<parts>  (parts = w | k<n> | c<cut>.<cut>...) *)
 let prng_bytes seed n =
   let x = ref (((seed * 2654435761) + 1) land 0xFFFFFFFF) in
   if !x = 0 then x := 1;
@@ -101,6 +103,40 @@ let run_partition (c : cs) (frags : string list) =
   let flags = List.map (fun ch -> int_of_vflag ch.c_valid) xf.x_dl.d_tab in
   (Buffer.contents rets, file, flags)
 
+(* several transfers on one zckDL: before each one zck_dl_reset + zck_get_missing_range + zck_dl_set_range
+   (Dl/Session.v: dl_reset, missing_ridx); a transfer is (header lines, fragments), possibly cut short *)
+let run_session (c : cs) (transfers : (string list * string list) list) =
+  let dsz = match c.ht with 0 -> 20 | 1 -> 32 | 2 -> 64 | _ -> 16 in
+  let h (b : n list) = bytes_of_string (Stubs.hash c.ht (string_of_bytes b)) in
+  let nchunks = Array.length c.lens in
+  let digest i = if c.lens.(i) = 0 then String.make dsz '\000' else Stubs.hash c.ht c.data.(i) in
+  let tab = List.init nchunks (fun i ->
+    { c_start = n_of_int c.starts.(i); c_len = n_of_int c.lens.(i);
+      c_digest = bytes_of_string (digest i); c_valid = vflag_of c.flags.(i) }) in
+  let dl0 = { d_err = false; d_pos = n_of_int 0; d_wic = n_of_int 0; d_tgt = None; d_cur = None;
+              d_acc = None; d_fpos = n_of_int 0; d_file = bytes_of_string c.init_file; d_tab = tab } in
+  let x0 = { x_dl = dl0; x_mp = { m_state = false; m_length = n_of_int 0; m_buf = [] };
+             x_boundary = None; x_rx = None } in
+  let doff = n_of_int c.doff in
+  let rets = Buffer.create 16 in
+  let xf = List.fold_left (fun (x, first) (hdrs, frags) ->
+    if not first then Buffer.add_char rets '/';
+    let x = dl_reset x in
+    let ridx = missing_ridx x.x_dl.d_tab in
+    let x = List.fold_left (fun x l -> header_cb rx_comp rx_exec x (bytes_of_string l)) x hdrs in
+    let rec go x = function
+      | [] -> x
+      | fr :: rest ->
+        let ((x', ok), st) = write_cb h doff ridx rx_comp rx_exec x (bytes_of_string fr) in
+        (match st with
+         | MOOB -> Buffer.add_char rets 'X'; x'
+         | MFuel -> Buffer.add_char rets 'U'; x'
+         | _ -> Buffer.add_char rets (if ok then '1' else '0'); if ok then go x' rest else x') in
+    (go x frags, false)) (x0, true) transfers |> fst in
+  let file = string_of_bytes xf.x_dl.d_file in
+  let flags = List.map (fun ch -> int_of_vflag ch.c_valid) xf.x_dl.d_tab in
+  (Buffer.contents rets, file, flags)
+
 let describe (c : cs) (rets, file, flags) =
   let fill = List.filter (fun t -> c.flags.(t) <> 1) c.ridx_t in
   let masked = Bytes.of_string file in
@@ -114,7 +150,7 @@ let describe (c : cs) (rets, file, flags) =
     else if String.length b = n && b = String.make n '\000' then 'Z'
     else if b = sub_clip c.init_file o n then 'I' else 'O' in
   let v = String.concat "," (List.mapi (fun i f -> Printf.sprintf "%d%c" f (cls i)) flags) in
-  let verdict = rets <> "" && String.for_all (fun ch -> ch = '1') rets || rets = "" in
+  let verdict = String.for_all (fun ch -> ch = '1' || ch = '/') rets in
   let key = Printf.sprintf "%b L=%d F=%s V=%s" verdict (String.length file) (sha256hex file) v in
   (Printf.sprintf "R=%s L=%d F=%s M=%s V=%s" rets (String.length file) (sha256hex file)
      (sha256hex (Bytes.to_string masked)) v, key)
@@ -127,35 +163,47 @@ let frags_of_cuts body cuts =
     | k :: r -> String.sub body prev (k - prev) :: go k r in
   go 0 cuts
 
+let cuts_of_parts parts nb =
+  if parts = "w" then []
+  else if parts.[0] = 'k' then
+    let k = int_of_string (String.sub parts 1 (String.length parts - 1)) in
+    List.init (if k > 0 then nb / k else 0) (fun i -> (i + 1) * k)
+  else if parts.[0] = 'c' then
+    List.map int_of_string (String.split_on_char '.' (String.sub parts 1 (String.length parts - 1)))
+  else failwith "parts"
+
+let mk_case ht doff chunks ridx post hdrs body opts =
+  let ht = int_of_string ht and doff = int_of_string doff in
+  let cl = List.map (fun s -> match String.split_on_char '.' s with
+    | [l; f; sd] -> (int_of_string l, int_of_string f, int_of_string sd) | _ -> failwith "chunk")
+    (split_on ',' chunks) in
+  let lens = Array.of_list (List.map (fun (l, _, _) -> l) cl) in
+  let flags0 = Array.of_list (List.map (fun (_, f, _) -> f) cl) in
+  let data = Array.of_list (List.map (fun (l, _, sd) -> prng_bytes sd l) cl) in
+  let n = Array.length lens in
+  let starts = Array.make n 0 in
+  for i = 1 to n - 1 do starts.(i) <- starts.(i-1) + lens.(i-1) done;
+  let flags = Array.copy flags0 in
+  List.iter (fun s -> match String.split_on_char '.' s with
+    | [i; f] -> flags.(int_of_string i) <- int_of_string f | _ -> failwith "post") (split_on ',' post);
+  let opts = split_on ',' opts in
+  let buf = Buffer.create 1024 in
+  Buffer.add_string buf (hdr_pattern doff);
+  Array.iteri (fun i l -> Buffer.add_string buf (if flags0.(i) = 1 then data.(i) else String.make l '\xee')) lens;
+  let init_file = List.fold_left (fun f o ->
+    if String.length o > 5 && String.sub o 0 5 = "trunc" then
+      let k = int_of_string (String.sub o 5 (String.length o - 5)) in
+      if k < String.length f then String.sub f 0 k else f
+    else f) (Buffer.contents buf) opts in
+  { ht; doff; lens; flags0; data; starts; ridx_t = List.map int_of_string (split_on ',' ridx);
+    flags; hdrs = List.map string_of_hex (split_on ',' hdrs);
+    body = string_of_hex body; init_file; clr = List.mem "clr" opts }
+
 let () = iter_lines (fun line ->
   match split_ws line with
   | ["X"; ht; doff; chunks; ridx; post; hdrs; body; parts; opts] ->
     (try
-      let ht = int_of_string ht and doff = int_of_string doff in
-      let cl = List.map (fun s -> match String.split_on_char '.' s with
-        | [l; f; sd] -> (int_of_string l, int_of_string f, int_of_string sd) | _ -> failwith "chunk")
-        (split_on ',' chunks) in
-      let lens = Array.of_list (List.map (fun (l, _, _) -> l) cl) in
-      let flags0 = Array.of_list (List.map (fun (_, f, _) -> f) cl) in
-      let data = Array.of_list (List.map (fun (l, _, sd) -> prng_bytes sd l) cl) in
-      let n = Array.length lens in
-      let starts = Array.make n 0 in
-      for i = 1 to n - 1 do starts.(i) <- starts.(i-1) + lens.(i-1) done;
-      let flags = Array.copy flags0 in
-      List.iter (fun s -> match String.split_on_char '.' s with
-        | [i; f] -> flags.(int_of_string i) <- int_of_string f | _ -> failwith "post") (split_on ',' post);
-      let opts = split_on ',' opts in
-      let buf = Buffer.create 1024 in
-      Buffer.add_string buf (hdr_pattern doff);
-      Array.iteri (fun i l -> Buffer.add_string buf (if flags0.(i) = 1 then data.(i) else String.make l '\xee')) lens;
-      let init_file = List.fold_left (fun f o ->
-        if String.length o > 5 && String.sub o 0 5 = "trunc" then
-          let k = int_of_string (String.sub o 5 (String.length o - 5)) in
-          if k < String.length f then String.sub f 0 k else f
-        else f) (Buffer.contents buf) opts in
-      let c = { ht; doff; lens; flags0; data; starts; ridx_t = List.map int_of_string (split_on ',' ridx);
-                flags; hdrs = List.map string_of_hex (split_on ',' hdrs);
-                body = string_of_hex body; init_file; clr = List.mem "clr" opts } in
+      let c = mk_case ht doff chunks ridx post hdrs body opts in
       let nb = String.length c.body in
       let one cuts = describe c (run_partition c (frags_of_cuts c.body cuts)) in
       if parts = "all1" || parts = "all2" then begin
@@ -172,17 +220,23 @@ let () = iter_lines (fun line ->
           for a = 1 to nb - 1 do for b = a + 1 to nb - 1 do chk [a; b] done done;
         Printf.printf "B[%s] N=%d AG=%d D[%s] | SPEC %s\n" bl !total !agree !first (lm_report ())
       end else begin
-        let cuts =
-          if parts = "w" then []
-          else if parts.[0] = 'k' then
-            let k = int_of_string (String.sub parts 1 (String.length parts - 1)) in
-            List.init (if k > 0 then nb / k else 0) (fun i -> (i + 1) * k)
-          else if parts.[0] = 'c' then
-            List.map int_of_string (String.split_on_char '.' (String.sub parts 1 (String.length parts - 1)))
-          else failwith "parts" in
-        let (l, _) = one cuts in
+        let (l, _) = one (cuts_of_parts parts nb) in
         Printf.printf "%s | SPEC %s\n" l (lm_report ())
       end
+    with Failure m -> Printf.printf "BADCASE %s\n" m)
+  | ["S"; ht; doff; chunks; transfers; opts] ->
+    (* session: transfers = t/t/...; t = hdrs:body:parts (hdrs = hex,hex or -, body = hex or -) *)
+    (try
+      let c0 = mk_case ht doff chunks "-" "-" "-" "-" opts in
+      let fill = List.filter (fun i -> c0.flags0.(i) = 0 && c0.lens.(i) > 0) (List.init (Array.length c0.lens) (fun i -> i)) in
+      let c = { c0 with ridx_t = fill } in
+      let ts = List.map (fun t -> match String.split_on_char ':' t with
+        | [hd; body; parts] ->
+          let body = string_of_hex body in
+          (List.map string_of_hex (split_on ',' hd), frags_of_cuts body (cuts_of_parts parts (String.length body)))
+        | _ -> failwith "transfer") (String.split_on_char '/' transfers) in
+      let (l, _) = describe c (run_session c ts) in
+      Printf.printf "%s | SPEC %s\n" l (lm_report ())
     with Failure m -> Printf.printf "BADCASE %s\n" m)
   | ["M"; kind; bhex; shex] ->
     (* literal matcher vs glibc on one string: kind n = part-header pattern, e = closing delimiter, h = header line *)
